@@ -235,7 +235,15 @@ func renderDst(d MDst, rng *rand.Rand) string {
 func (m *MCMap) RenderBody(rng *rand.Rand) string {
 	var sb bytes.Buffer
 	sep := func() string {
-		switch rng.IntN(8) {
+		switch rng.IntN(12) {
+		case 8:
+			return "\x00" // all six PostScript white-space characters separate tokens
+		case 9:
+			return "\f"
+		case 10:
+			return "\r"
+		case 11:
+			return " \x00\t\f "
 		case 0:
 			return "\n"
 		case 1:
